@@ -968,6 +968,11 @@ def r_config_plumbing(repo, rep, R):
         rep.check(len(stars) == 1 and stars[0][0] == 'dict', R, w2, 'parsing.run:direct:kwargs', 'the in-process call passes the option dictionary as **kwargs',
                   'the in-process call does not pass one literal option dictionary with ** (%s)' % [show(v)[:40] for v in stars])
         dicts += [v for v in stars if v[0] == 'dict']
+    # every in-process call gets the same options: a further call that overrides one (a second pass with the beam
+    # switched off, ..) returns trees the caller's settings do not allow
+    differing = [show(d_)[:70] for d_ in dicts[1:] if d_ != dicts[0]]
+    rep.check(not differing, R, w2, 'parsing.run:direct:one-dictionary', 'all in-process calls of depccg._parsing.run pass the one option dictionary',
+              'depccg._parsing.run is also called with other options than the caller gave: %s' % differing[:2])
     for c_ in pooled:
         kwds = dict(c_[3]).get('kwds')
         inner = [v for k, v in kwds[1] if k is None] if kwds is not None and kwds[0] == 'dict' else []
